@@ -513,7 +513,8 @@ def inject_propagating(rng, case):
     k = rng.randrange(len(ts) - 1)
     t = ts[k]
     kind = rng.choice(["xo", "xo", "xi", "L", "C"])
-    ins, outs = eff_in(case), eff_out(case)
+    # only rails whose check is an ACTION can have a failing LLM call (a pure-Colang rail computes its verdict in the flow)
+    ins, outs = [r for r in eff_in(case) if not P.is_pure(r)], [r for r in eff_out(case) if not P.is_pure(r)]
     if kind == "xo" and outs:
         t["vout"] = _set(t.get("vout"), rng.choice(outs), "x")
     elif kind == "xi" and ins:
